@@ -49,6 +49,9 @@ func StyleByName(n string) (Style, bool) {
 
 func (st Style) q(id string) string {
 	if st.Quote == "" {
+		if !reIdent.MatchString(id) {
+			return `"` + id + `"` // exotic names cannot be written bare
+		}
 		return id
 	}
 	return st.Quote + id + st.Quote
